@@ -55,10 +55,8 @@ theorem closeEvent_state (l : LoopSt ℚ σ) (e : EvId) : (closeEvent l e).state
   split
   · rfl
   · split
+    · split <;> rfl
     · rfl
-    · split
-      · split <;> rfl
-      · rfl
 
 /-- what one `step` does to clock and agenda: it pops the minimum `q`, jumps to `q.time`, and the callback
 loop only adds fresh entries due at `q.time` or later -/
